@@ -17,8 +17,8 @@ PROPS = {
     "C15": {
         "tests": ["TestC15"],
         "design_ref": "DESIGN.md §3.15",
-        "level_text": "TODO",
-        "level_note": "TODO",
+        "level_text": "Theorems C15_complete_precise, C15_succeeds_without_outage, C15_failure_keeps_index, C15_retry (Coq, no axioms) about a model of InvalidateByLabels that follows the algorithm (cut, delete label by label with dedup, put back on failure), for every incidence structure, label argument list (repeats included), cache set, outage set and interleaved AddLabels. Correspondence: random structures over 1-2 names x 1-3 caches (all three backends as Deleter), outages on single (cache,key) pairs or whole caches with retries, AddLabels landing between cut and deletes, recover() around each call; counts, cache contents and the index (VerifIndexSize hook) compared.",
+        "level_note": "Trusted: Coq kernel; hand-written Index.v (differential tie, ~220 structures per quick run); count exactness is checked by the correspondence run, the theorem states 0 <= count; concurrency of AddLabels/Invalidate is represented by deterministic interleaving points only (data-race freedom is C16).",
     },
     "C06": {
         "tests": ["TestC06"],
